@@ -14,8 +14,8 @@ Translation validation of every program the real ``qp.transforms.decompose`` (gr
 * ``decomp.work_wires``  number of simultaneously allocated work wires never exceeds ``num_work_wires``.
 * ``decomp.resources``   graph system, single-operator tapes: the ``DecompGraphSolution`` actually used by the transform (captured by
                          wrapping the module-level ``_construct_and_solve_decomp_graph``) reports ``resource_estimate(op)``; if every rule
-                         on the chosen path is ``exact_resources`` the emitted circuit matches it gate for gate (by canonical type name),
-                         otherwise every emitted type must be among the estimated types.
+                         on the chosen path is ``exact_resources`` the emitted circuit matches it gate for gate (by canonical type name);
+                         paths with an inexact rule are only counted (the statement makes no claim for them).
 * ``decomp.accepts``     only decomposition errors (DecompositionError / DecompositionUndefinedError / the documented RecursionError
                          "Reached recursion limit…" / the ``error=`` type of the preprocess transform) may be raised.
 """
@@ -291,10 +291,11 @@ class Validator:
                                                   f"path declares exact resources: (emitted, estimated) = {diff}",
                               case=self.witness(tape, new, {"emitted": got, "estimated": est_counts}), mech=f"resource-estimate:{canon(op)}")
         elif ex is False:
-            extra = set(got) - set(est_counts)
-            if extra:
-                ctx.violation("decomp.resources", f"{op.name}: emitted gate types {sorted(extra)} are not among the estimated types {sorted(est_counts)}",
-                              case=self.witness(tape, new, {"emitted": got, "estimated": est_counts}), mech=f"resource-types:{canon(op)}")
+            # the statement makes no claim when a rule on the path declares inexact resources: observability only
+            ctx.count("resources_inexact_paths")
+            if set(got) - set(est_counts):
+                ctx.count("resources_inexact_path_type_mismatch")
+                ctx.note_add("inexact_path_type_mismatch", {"op": canon(op), "emitted_not_estimated": sorted(set(got) - set(est_counts))})
 
 
 # ----------------------------------------------------------------------------- workload
